@@ -15,6 +15,7 @@ import Mathlib.Algebra.Order.Field.Rat
 import Mathlib.Tactic.NormNum
 import LnnVerif.Lemmas.PendLemmas
 import LnnVerif.Lemmas.FolMono
+import LnnVerif.Lemmas.FolRestrict
 
 set_option linter.unusedSectionVars false
 
@@ -172,5 +173,21 @@ theorem C05_fol_plain (kb : FKB ι α) (hw : WorldsInUnit kb) (cs : List (FCall 
   runFCalls_tightens kb hw cs s hs
 
 end fol
+
+/-! ### node-level calls restricted to given groundings (`upward(groundings=…)`, `downward(index=…, groundings=…)`) -/
+
+section restricted
+
+variable {ι : Type} [DecidableEq ι] {α : Type} [Field α] [LinearOrder α] [IsStrictOrderedRing α]
+
+/-- with any grounding restriction (honoured by join-free connectives, ignored by everything else)
+and any operand index, a node-level call only tightens -/
+theorem C05_fol_restricted (kb : FKB ι α) (hw : WorldsInUnit kb) (i : ι) (idx : Option Nat)
+    (restrict : Option (List Gr)) (p : PState ι α) (hs : FState.InUnit p.st) :
+    (FState.Tightens p.st (pUpR kb i restrict p).1.st ∧ FState.InUnit (pUpR kb i restrict p).1.st) ∧
+    (FState.Tightens p.st (pDownR kb i idx restrict p).1.st ∧ FState.InUnit (pDownR kb i idx restrict p).1.st) :=
+  ⟨FolRestrict.pUpR_tightens kb hw i restrict p hs, FolRestrict.pDownR_tightens kb hw i idx restrict p hs⟩
+
+end restricted
 
 end LNN
